@@ -167,6 +167,8 @@ def run(R):
     for a in range(0, len(datasets), chunk):
         try:
             run_datasets(R, datasets[a:a + chunk])
+        except L.ImplAbort:
+            break
         except Exception:  # noqa: BLE001 - keep the violations found so far reportable
             import traceback
             R.disagree("run_datasets: the implementation left the harness in an unexpected state",
@@ -179,9 +181,26 @@ def run(R):
 
 def replay(R, payload):
     """Re-run the recorded case; True iff it still fails."""
-    case = payload.get("case", {})
+    case = payload.get("case") or {}
+    if not case and payload.get("disagreements"):
+        case = payload["disagreements"][0].get("case") or {}
+    if "ops" not in case and "grid" in case:
+        # hang report: only the dataset parameters were recorded; store the whole grid
+        g = case["grid"]
+        coords = sorted(itertools.product(*[range(k) for k in g]), key=lambda c: L.ref_cmc(g, c))
+        ds = {k: case[k] for k in ("grid", "cs", "sizes", "m", "s", "p", "ie", "de")}
+        ds.update(subset="full", sel=[list(c) for c in coords],
+                  payloads=[bytes([i % 251]) * (i % 7) for i in range(len(coords))])
+        before = (len(R.violations), len(R.disagreements))
+        try:
+            run_datasets(R, [(ds, L.order_ops(ds, R.rng, "reversed"), "in memory"),
+                             (ds, L.order_ops(ds, R.rng, "random"), "on disk")])
+        except L.ImplAbort:
+            return True
+        return (len(R.violations), len(R.disagreements)) != before
     if "ops" not in case:
-        return True
+        run(R)
+        return bool(R.violations or R.disagreements)
     ds = {k: case[k] for k in ("grid", "cs", "sizes", "m", "s", "p", "ie", "de", "subset")}
     ops = [tuple(o[:3]) + (bytes.fromhex(o[3][1:]) if isinstance(o[3], str) else bytes(o[3]),)
            for o in case["ops"]]
